@@ -5,6 +5,7 @@
      - one topic creation with lookupd-known channels and the first message(s).
    No proofs here. *)
 From Coq Require Import List NArith ZArith Bool.
+From RecordUpdate Require Import RecordUpdate.
 From NSQV Require Import model.Judge model.Sync.
 Import ListNotations.
 Open Scope bool_scope.
@@ -23,7 +24,10 @@ Record phase := mkPhase {
 Inductive case :=
 | Scenario (phases : list phase)
 | Rrb (limit : Z) (buf : list N) (code : N) (body : list N) (unread : nat)
-| Precreate (t : N) (known : list N) (concurrent : bool) (created : list N)
+| Precreate (t : N) (known : list N)
+            (bmode : N)            (* second nsqlookupd: 0 none, 1 healthy, 2 its HTTP /channels query fails *)
+            (known_b : list N)     (* what the second one knows *)
+            (concurrent : bool) (created : list N)
             (queues : list (N * list N)) (first : N) (ok : bool).
 
 (* ---------------------------------------------------------------- scenarios *)
@@ -60,9 +64,7 @@ Fixpoint judge_phases (x : state) (ps : list phase) : bool * bool :=
   end.
 
 (* ---------------------------------------------------------------- the reader *)
-Definition rrb_cfg (limit : Z) : cfg :=
-  mkCfg (g_neg repo_cfg) (g_limit repo_cfg) limit (g_close repo_cfg) (g_reg_topics repo_cfg) (g_reg_chans repo_cfg) (g_skip_exiting repo_cfg)
-        (g_unreg_topic repo_cfg) (g_unreg_chan repo_cfg) (g_precreate_first repo_cfg) (g_skip_eph repo_cfg).
+Definition rrb_cfg (limit : Z) : cfg := repo_cfg <| g_max := limit |>.
 
 Definition judge_rrb (limit : Z) (buf : list N) (code : N) (body : list N) (unread : nat) : bool * bool :=
   let agree :=
@@ -77,10 +79,14 @@ Definition judge_rrb (limit : Z) (buf : list N) (code : N) (body : list N) (unre
 Definition n_mem (x : N) (l : list N) : bool := existsb (N.eqb x) l.
 Definition n_sub (a b : list N) : bool := forallb (fun x => n_mem x b) a.
 
-Definition pre_ops (t : N) (known : list N) (concurrent : bool) : list op :=
-  [Reconfigure [0%nat]; FKnown 0%nat (map (fun c => (t, c)) known); TopicCreate t]
+Definition pre_ops (t : N) (known : list N) (bmode : N) (known_b : list N) (concurrent : bool) : list op :=
+  (if bmode =? 0 then [Reconfigure [0%nat]; FKnown 0%nat (map (fun c => (t, c)) known)]
+   else [Reconfigure [0%nat; 1%nat]; FKnown 0%nat (map (fun c => (t, c)) known);
+         FKnown 1%nat (map (fun c => (t, c)) known_b)]
+        ++ (if bmode =? 2 then [FHttp 1%nat false] else []))
+  ++ [TopicCreate t]
   ++ (if concurrent then [Put t 2; Pump t] else [])
-  ++ repeat (TopicAdvance t) (2 + length known)
+  ++ repeat (TopicAdvance t) (2 + length known + length known_b)
   ++ [Put t 1; Pump t; Pump t].
 
 Definition model_queues (s : st) (t : N) : list (N * list N) :=
@@ -95,10 +101,10 @@ Fixpoint assoc_q (c : N) (l : list (N * list N)) : option (list N) :=
   | (k, q) :: r => if N.eqb k c then Some q else assoc_q c r
   end.
 
-Definition judge_pre (t : N) (known : list N) (concurrent : bool) (created : list N)
+Definition judge_pre (t : N) (known : list N) (bmode : N) (known_b : list N) (concurrent : bool) (created : list N)
                      (queues : list (N * list N)) (first : N) (ok : bool) : bool * bool :=
   let agree :=
-    match run repo_cfg (Run init) (pre_ops t known concurrent) with
+    match run repo_cfg (Run init) (pre_ops t known bmode known_b concurrent) with
     | Run s =>
         let mq := model_queues s t in
         let mc := map fst mq in
@@ -107,12 +113,15 @@ Definition judge_pre (t : N) (known : list N) (concurrent : bool) (created : lis
         Nat.eqb (length queues) (length created)
     | Crashed => false
     end in
+  (* the property on the observation alone: every non-ephemeral channel known to an ANSWERING
+     nsqlookupd exists and got the first message first; nothing else was created *)
+  let answering := known ++ (if bmode =? 1 then known_b else []) in
   let monitor :=
     ok &&
     forallb (fun c => if eph c then negb (n_mem c created)
                       else n_mem c created &&
-                           match assoc_q c queues with Some (m :: _) => N.eqb m first | _ => false end) known &&
-    forallb (fun c => n_mem c known && negb (eph c)) created in
+                           match assoc_q c queues with Some (m :: _) => N.eqb m first | _ => false end) answering &&
+    forallb (fun c => n_mem c answering && negb (eph c)) created in
   (agree, monitor).
 
 Definition judge (c : case) : N :=
@@ -120,6 +129,6 @@ Definition judge (c : case) : N :=
     match c with
     | Scenario ps => judge_phases (Run init) ps
     | Rrb limit buf code body unread => judge_rrb limit buf code body unread
-    | Precreate t known conc created queues first ok => judge_pre t known conc created queues first ok
+    | Precreate t known bmode known_b conc created queues first ok => judge_pre t known bmode known_b conc created queues first ok
     end in
   verdict a m.
